@@ -51,7 +51,9 @@ impl Read for ScriptedReader<'_> {
         let want = match ans {
             Some(Answer::Fail(k)) => {
                 self.failed = Some(k);
-                return Err(io::Error::new(k, "injected fault"));
+                // the payload names the failing call, so that "returned as THAT error" can be told from "an error of
+                // the same kind"
+                return Err(io::Error::new(k, format!("injected fault at read call {}", call)));
             }
             Some(Answer::Short(n)) => n,
             None => self.policy,
@@ -116,6 +118,15 @@ fn run_one_unguarded(len: usize, policy: usize, script: &[(usize, Answer)], decl
         }
     };
     let got = res_string(&res);
+    // identity of the I/O error: kind (below) and payload
+    if let (Some(_), Err(GeneratorOrIOError::IOError(e))) = (rd.failed, &res) {
+        let call = rd.calls - 1 - rd.calls_after_end;
+        let want = format!("injected fault at read call {}", call);
+        let payload_ok = e.get_ref().map(|p| p.to_string() == want).unwrap_or(false);
+        if !payload_ok || e.to_string() != want {
+            return Err(format!("len={} policy={} script={:?} declared={:?}: the I/O error that came back is not the reader's error (message {:?}, payload {:?}; the reader failed with {:?})", len, policy, script, declared, e.to_string(), e.get_ref().map(|p| p.to_string()), want));
+        }
+    }
     // The oracle is independent of the caller's buffer size: what the reader was actually asked decides.
     //  * the reader returned an error  => the result must be exactly that I/O error (no hash);
     //  * otherwise the caller must have read until it saw end of stream (Ok(0)), and the result is the
@@ -408,7 +419,7 @@ pub fn run(ctx: &Ctx) -> Report {
     rep.set("exhaustive", true);
     rep.set(
         "rule",
-        "payloads of length {0,1,100,32767,32768,32769,70000} (trigger-word content) x read policies {fill, 1, 7, 4096, 32768 bytes per read} x every script with <= 2 deviations over the read calls (deviation = a short read of {1,6,7,4095,32767} bytes or a failure with kind {Other, UnexpectedEof, Interrupted, WouldBlock, PermissionDenied, TimedOut}); a failure must come back as that I/O error and no hash, short reads must give the hash of the delivered bytes; through hook H2 with declared size {len-1,len,len+1,0}: Ok iff the declared size equals the delivered bytes, faults still win; real files: regular files of each length, missing path, directory, procfs entries whose metadata size disagrees with their content, named pipes (metadata size 0) delivering {1,100,32768,70000} bytes from a writer thread, /dev/null.  A case is one (payload, policy, script, declared) execution; non-trivial = at least one deviation.",
+        "payloads of length {0,1,100,32767,32768,32769,70000} (trigger-word content) x read policies {fill, 1, 7, 4096, 32768 bytes per read} x every script with <= 2 deviations over the read calls (deviation = a short read of {1,6,7,4095,32767} bytes or a failure with kind {Other, UnexpectedEof, Interrupted, WouldBlock, PermissionDenied, TimedOut}); a failure must come back as that I/O error (same kind, same payload) and no hash, short reads must give the hash of the delivered bytes; through hook H2 with declared size {len-1,len,len+1,0}: Ok iff the declared size equals the delivered bytes, faults still win; real files: regular files of each length, missing path, directory, procfs entries whose metadata size disagrees with their content, named pipes (metadata size 0) delivering {1,100,32768,70000} bytes from a writer thread, /dev/null.  A case is one (payload, policy, script, declared) execution; non-trivial = at least one deviation.",
     );
     rep.assume("std::io::Read semantics: Ok(0) is end of stream; the reader loop uses a 32 KiB buffer (the model replays the script against that size)");
     rep
